@@ -98,12 +98,15 @@ def check_orientation(ctx, rid):
     reversed orientation and must be re-reversed when appended wholesale to `children`."""
     m = ctx.repo.mod('astutil')
     n = 0
-    for q, fis in m.funcs.items():
-        if not q.startswith('_syntax_ordered_children_'):
-            continue
-        for fi in fis:
-            if isinstance(fi.node, ast.Lambda):
-                continue
+    from ..struct import called_helpers
+    builders = [fi for q, fis in m.funcs.items() if q.startswith('_syntax_ordered_children_') for fi in fis if not isinstance(fi.node, ast.Lambda)]
+    # the interleaving may be written once in a worker that the builders hand their `children` list to
+    for fi in list(builders):
+        for h in called_helpers(ctx.repo, fi, 2):
+            if h not in builders and not isinstance(h.node, ast.Lambda):
+                builders.append(h)
+    for fi in builders:
+        if True:
             rev = set()
             for x in walk_no_nested(fi.node):
                 if isinstance(x, ast.Assign) and isinstance(x.targets[0], ast.Name) and isinstance(x.value, ast.Subscript) and \
@@ -112,7 +115,7 @@ def check_orientation(ctx, rid):
             if not rev:
                 continue
             for c in walk_no_nested(fi.node):
-                if isinstance(c, ast.Call) and call_name(c) == 'extend' and norm(c.func.value) == 'children' and c.args:
+                if isinstance(c, ast.Call) and call_name(c) == 'extend' and isinstance(c.func.value, ast.Name) and c.args:
                     a = c.args[0]
                     base = a.value if isinstance(a, ast.Subscript) else a
                     if isinstance(base, ast.Name) and base.id in rev:
@@ -128,5 +131,5 @@ def check_orientation(ctx, rid):
                         ctx.check(rid, ok, 'astutil', fi.qualname, c,
                                   f'`{base.id}` was reversed to be consumed with pop(); appending its remainder without `[::-1]` yields the remaining '
                                   f'children in reverse source order, and _offset() / walk() rely on source order', c.lineno, sample=norm(c))
-    if n < 4:
-        raise AnalysisError('orientation rule found fewer than 4 wholesale appends of reversed work lists')
+    if n < 2:
+        raise AnalysisError('orientation rule found fewer than 2 wholesale appends of reversed work lists')
